@@ -1056,12 +1056,22 @@ impl Parser {
                     ":" => {
                         self.advance();
                         let name = self.expect_name("method name")?;
+                        let mut types = None;
                         if self.luau() && self.at_instantiation() {
-                            return self
-                                .err("explicit type instantiation on a method call is not supported by this parser");
+                            let sp = self.span_begin(self.cur().start);
+                            self.advance();
+                            self.advance();
+                            let list = self.parse_type_args_until_close()?;
+                            if !(self.check_sym(">") && Self::is_sym(self.peek(1), ">")) {
+                                return self.err_expected("'>>' to close the type instantiation");
+                            }
+                            self.advance();
+                            self.advance();
+                            self.span_end(sp);
+                            types = Some(list);
                         }
                         let (args, sugar) = self.parse_call_args()?;
-                        e = Expr::MethodCall { obj: Box::new(e), name, args, sugar };
+                        e = Expr::MethodCall { obj: Box::new(e), name, types, args, sugar };
                     }
                     "(" | "{" => {
                         let (args, sugar) = self.parse_call_args()?;
@@ -1830,7 +1840,9 @@ pub(crate) mod dump {
             Expr::Index { obj, key } => format!("{}[{}]", expr(obj), expr(key)),
             Expr::Field { obj, name } => format!("{}.{}", expr(obj), name),
             Expr::Call { f, args, sugar } => format!("{}{}", expr(f), call_args(args, *sugar)),
-            Expr::MethodCall { obj, name, args, sugar } => format!("{}:{}{}", expr(obj), name, call_args(args, *sugar)),
+            Expr::MethodCall { obj, name, types, args, sugar } => {
+                format!("{}:{}{}{}", expr(obj), name, types.as_ref().map(|t| format!("<<{}>>", join(t, type_arg))).unwrap_or_default(), call_args(args, *sugar))
+            }
             Expr::Function { attrs, func } => format!("{}function{}", attributes(attrs), func_body(func)),
             Expr::Paren(x) => format!("P[{}]", expr(x)),
             Expr::Unary(op, x) => match op {
